@@ -9,7 +9,8 @@ import json, os, shutil, subprocess, sys
 
 prop, var, out = sys.argv[1], sys.argv[2], sys.argv[3]
 needs = sys.argv[4] if len(sys.argv) > 4 else ''
-name = '%s-%s' % (prop, var)
+store = sys.argv[5] if len(sys.argv) > 5 else var
+name = '%s-%s' % (prop, store)
 wt = '/tmp/sa-intake-%s' % name
 patch = os.path.join(out, '%s.diff' % var)
 demo = os.path.join(out, 'demo_%s.py' % var)
@@ -22,7 +23,7 @@ def run(cmd, **kw):
 
 subprocess.call(['git', '-C', '/repo', 'worktree', 'remove', '--force', wt], stderr=subprocess.DEVNULL)
 assert run(['git', '-C', '/repo', 'worktree', 'add', '-q', '--detach', wt, 'HEAD']).returncode == 0
-meta = {'property': prop, 'variant': var, 'needs_to_manifest': needs, 'ran': []}
+meta = {'property': prop, 'variant': store, 'needs_to_manifest': needs, 'ran': []}
 try:
     env = dict(os.environ, TM_LIB=os.path.join(wt, 'lib/python'))
     r = run(['/venv/bin/python', demo], env=env, timeout=600)
